@@ -523,7 +523,11 @@ pub fn run(ctx: &mut Ctx) {
     let n = ctx.tier.pick(16_000, 200_000);
     ctx.family("corpus", n, |ctx, case: &mut Case| {
         let r = &mut case.rng;
-        let (kind, input) = corpus_item(r, true);
+        // under Miri (about four orders of magnitude slower) no MEDIUM structures, and at most 1500 bytes of any item
+        let (kind, mut input) = corpus_item(r, !ctx.miri);
+        if ctx.miri && input.len() > 1500 {
+            input.truncate(1500);
+        }
         ctx.count("corpus.items");
         let mut s = String::new();
         for e in &reg {
@@ -714,6 +718,68 @@ pub fn run(ctx: &mut Ctx) {
             }
         }
         ctx.shape(&("defrag-soup", nops.min(8), p.defrag_in_progress()));
+    });
+
+    // hand-built raw records far larger than any record parser would produce (the data slice of a public
+    // TlsRawRecord is the caller's): a first fragment around / above the 10 MiB buffer size, then continuations
+    ctx.floor("defrag.giant", 12);
+    ctx.sweep("defrag-giant-records", 12, |ctx, idx| {
+        let n = [MAX_RECORD_DATA - 1, MAX_RECORD_DATA, MAX_RECORD_DATA + 1, MAX_RECORD_DATA + 16384, 1 << 24, (1 << 24) + 5][(idx % 6) as usize];
+        let ty = if idx < 6 { 0x16u8 } else { 0x18 };
+        let mut first = match crate::gen::lazy_zeroed(n) {
+            Some(b) => b,
+            None => {
+                ctx.unjudged("giant-record-not-allocatable");
+                return;
+            }
+        };
+        if ty == 0x16 {
+            first[..4].copy_from_slice(&[1, 0xff, 0xff, 0xff]);
+        } else {
+            first[..3].copy_from_slice(&[1, 0xff, 0xff]);
+        }
+        let small = [0u8; 16];
+        let big = vec![0u8; 16640];
+        let steps: [(u8, &[u8], bool); 9] =
+            [(ty, &first[..], false), (ty, &small[..0], false), (ty, &small[..], false), (0x17, &small[..3], false), (ty, &small[..4], true), (ty, &big[..], false), (0x15, &big[..], false), (ty, &first[..], false), (ty, &small[..], false)];
+        let base = alloc::live();
+        let mut p = TlsRecordsParser::default();
+        let mut fed = 0usize;
+        let mut s = String::new();
+        for (k, (t, data, nocopy)) in steps.iter().enumerate() {
+            s.clear();
+            let res = crate::ctx::guard(|| {
+                let rec = TlsRawRecord { hdr: TlsRecordHeader { record_type: TlsRecordType(*t), version: TlsVersion(0x0303), len: data.len() as u16 }, data };
+                let rr = if *nocopy { p.parse_record_nocopy(rec) } else { p.parse_record(rec) };
+                let c = match &rr { Ok(_) => 0u8, Err(Err::Incomplete(_)) => 1, Err(_) => 2 };
+                if data.len() < 100_000 {
+                    fmt_full(&rr, &mut s);
+                }
+                c
+            });
+            ctx.eval();
+            ctx.count("defrag.ops");
+            fed += data.len();
+            match res {
+                Err(pn) => {
+                    if pn.in_harness() {
+                        eprintln!("HARNESS-PANIC at {} ({})", pn.loc, pn.msg);
+                        std::process::exit(3);
+                    }
+                    ctx.violation(format!("c01:{}:TlsRecordsParser-giant-record", pn.sig()), json!({"panic_at": pn.loc, "panic_msg": pn.msg, "first_fragment_len": n, "record_type": ty, "step": k}));
+                    return;
+                }
+                Ok(c) => ctx.shape(&("giant", ty, idx % 6, k, c)),
+            }
+            let held = alloc::live().saturating_sub(base);
+            let bound = BOUND_CONST + BOUND_PER_BYTE * fed + 3 * MAX_RECORD_DATA;
+            if held > bound + s.capacity() {
+                ctx.violation("c01:heap-bound:TlsRecordsParser-giant-record".into(), json!({"held": held, "bound": bound, "fed": fed}));
+                return;
+            }
+        }
+        p.reset();
+        ctx.count("defrag.giant");
     });
 
     // oversize stream (hang / memory): 2^24-1 handshake message in 16 KiB records, 3x the cap
